@@ -349,11 +349,25 @@ func init() {
 						ok := false
 						ni.inspect(ni.Decl.Body, func(nd ast.Node) bool {
 							rs, isR := nd.(*ast.RangeStmt)
-							if !isR || ni.selField(rs.X) != f || ni.varOf(rs.X.(*ast.SelectorExpr).X) != recv {
+							if !isR {
 								return true
 							}
-							if ni.parent[rs] == ast.Node(ni.Decl.Body) && ni.loopOnlyReturnsTrueOnEqParam(rs, param) {
-								ok = true
+							// direct: range recv.<table>
+							if ni.selField(rs.X) == f && ni.varOf(rs.X.(*ast.SelectorExpr).X) == recv {
+								if ni.parent[rs] == ast.Node(ni.Decl.Body) && ni.loopOnlyReturnsTrueOnEqParam(rs, param) {
+									ok = true
+								}
+								return true
+							}
+							// merged: range over the element of an outer `range [][]string{…, recv.<table>, …}` with no early exit
+							if outer, isO := ni.enclosingLoop(rs).(*ast.RangeStmt); isO && outer.Value != nil && ni.varOf(rs.X) == ni.varOf(outer.Value) && ni.parent[outer] == ast.Node(ni.Decl.Body) {
+								if cl, isCL := ast.Unparen(outer.X).(*ast.CompositeLit); isCL && len(outer.Body.List) == 1 && outer.Body.List[0] == ast.Stmt(rs) {
+									for _, el := range cl.Elts {
+										if ni.selField(el) == f && ni.varOf(el.(*ast.SelectorExpr).X) == recv && ni.loopOnlyReturnsTrueOnEqParam(rs, param) {
+											ok = true
+										}
+									}
+								}
 							}
 							return true
 						})
